@@ -148,7 +148,7 @@ pub fn corpus_cases(max2d: usize) -> Vec<TorCase> {
     v
 }
 
-/// deterministic sample of quotients of the cubic tiling by space groups (G-CUBIC): known euclidean
+/// deterministic sample of quotients of the cubic tiling (G-CUBIC) and of prism tilings (G-PRISM) by space groups: known euclidean
 pub fn cubic_cases(count: usize, max_n: usize) -> Vec<TorCase> {
     use rayon::prelude::*;
     (0..count)
@@ -163,18 +163,28 @@ pub fn cubic_cases(count: usize, max_n: usize) -> Vec<TorCase> {
             };
             let n = if max_n >= 4 && k % 11 == 10 { 4 } else if max_n >= 3 && k % 5 == 4 { 3 } else { 2 };
             let ng = 1 + (next() % 3) as usize;
-            let codes: Vec<u32> = (0..ng).map(|_| next()).collect();
-            let (ds, text) = crate::gen::cubic::quotient_by_codes(n, &codes);
+            let (ds, text) = if k % 3 == 2 {
+                let which = (next() % 4) as usize;
+                let codes: Vec<(u32, u32)> = (0..ng).map(|_| (next(), next())).collect();
+                crate::gen::prismatic::quotient_by_codes(which, &codes)
+            } else {
+                let codes: Vec<u32> = (0..ng).map(|_| next()).collect();
+                crate::gen::cubic::quotient_by_codes(n, &codes)
+            };
             TorCase { swaps: vec![(next(), next()), (next(), next())], dual: k % 2 == 1, ds, known: text, kind: String::new() }
         })
         .collect()
 }
 
-/// proptest strategy over G-CUBIC: box size, 1..=3 generating isometries, renumbering, dual
+/// proptest strategy over G-CUBIC and G-PRISM: family / box size, 1..=3 generating isometries, renumbering, dual
 pub fn cubic_strategy(max_n: usize) -> impl Strategy<Value = TorCase> {
-    (0usize..10, prop::collection::vec(any::<u32>(), 1..=3), prop::collection::vec((any::<u32>(), any::<u32>()), 0..6), any::<bool>()).prop_map(move |(nn, codes, swaps, dual)| {
+    (0usize..14, prop::collection::vec((any::<u32>(), any::<u32>()), 1..=3), prop::collection::vec((any::<u32>(), any::<u32>()), 0..6), any::<bool>()).prop_map(move |(nn, codes, swaps, dual)| {
         let n = if max_n >= 4 && nn == 9 { 4 } else if max_n >= 3 && nn >= 7 { 3 } else { 2 };
-        let (ds, text) = crate::gen::cubic::quotient_by_codes(n, &codes);
+        let (ds, text) = if nn >= 10 {
+            crate::gen::prismatic::quotient_by_codes(nn - 10, &codes)
+        } else {
+            crate::gen::cubic::quotient_by_codes(n, &codes.iter().map(|c| c.0).collect::<Vec<_>>())
+        };
         TorCase { ds, swaps, dual, known: text, kind: String::new() }
     })
 }
@@ -203,7 +213,7 @@ pub fn run(ctx: &mut Ctx) {
     ctx.rule = "all 3D symbols with good spherical tiles and vertex figures and branching in {1,2,3,4,6} over all enumerated 3D D-sets up to a size bound (own backtracking), each with a renumbered or dual variant and its 2-sheeted covers; the literature corpus; products (euclidean 2D symbol) x (line tiling); proptest-generated renumberings of all of them".into();
     ctx.assume("'undecided' is a legitimate answer except on the known-euclidean corpora");
     ctx.assume("product symbols are known to be euclidean by construction (plane group x line group), not by anything the crate computes");
-    ctx.assume("the quotient of the cubic tiling of E^3 by a group generated by lattice translations and signed coordinate permutations with lattice shifts is a euclidean symbol by definition");
+    ctx.assume("the quotient of the cubic tiling of E^3 (or of a triangular / square prism tiling) by a group generated by lattice translations and isometries that map the tiling to itself is a euclidean symbol by definition");
     ctx.assume("a closed manifold homeomorphic to T^3 (T^3 # S^3 built by tile surgery) is euclidean; S^2 x S^1, RP^3 and connected sums of them are not (flat manifolds are irreducible with infinite group)");
     ctx.assume("simplify iterates over a HashSet: each symbol is evaluated twice in the same process and a difference counts as a violation of invariance");
     crate::props::run_regressions(ctx, "C17");
@@ -218,8 +228,8 @@ pub fn run(ctx: &mut Ctx) {
     cases.extend(cubic_cases(ncub, t.pick(3, 4)));
     cases.extend(manifold_cases(nman, true));
     let n = cases.len();
-    ctx.run_par(&SUB_VERDICT, cases.clone(), Some(&format!("{} cases: 3D symbols with spherical links and branching in {{1,2,3,4,6}}: {}; 20 literature symbols; products of all euclidean 2D symbols with <= {} chambers with the 4 line tilings; {} quotients of the cubic tiling by space groups (known euclidean); cubical 3-manifolds of known topology (T^3, T^3 # S^3: euclidean; S^2 x S^1, RP^3 and connected sums: not) with {} gluing choices", n, pool_text, t.pick(4, 6), ncub, nman)));
-    ctx.layer("random-cubic-quotients");
+    ctx.run_par(&SUB_VERDICT, cases.clone(), Some(&format!("{} cases: 3D symbols with spherical links and branching in {{1,2,3,4,6}}: {}; 20 literature symbols; products of all euclidean 2D symbols with <= {} chambers with the 4 line tilings; {} quotients of the cubic tiling and of triangular / square prism tilings by space groups (known euclidean); cubical 3-manifolds of known topology (T^3, T^3 # S^3: euclidean; S^2 x S^1, RP^3 and connected sums: not) with {} gluing choices", n, pool_text, t.pick(4, 6), ncub, nman)));
+    ctx.layer("random-space-group-quotients");
     let max_n = t.pick(3, 4);
     ctx.run_prop(&SUB_VERDICT, move || cubic_strategy(max_n), t.pick(300, 6_000));
     ctx.layer("random");
